@@ -267,10 +267,14 @@ def with_replacement_kernel(ctx, impls, k):
 def unbiased_means(ctx, impls, seeds):
     """real numpy Generator, fixed seeds: the mean count kept per entry against the exact expectation
     n*c/T (hypergeometric without replacement, multinomial with), within 5 standard errors"""
+    k = -1
     for counts, n in (([3, 2, 1], 2), ([1, 4, 0, 2], 3), ([5, 5], 4), ([2, 1, 1, 1, 1], 3)):
         T = sum(counts)
         for name, mods in impls:
             for mode in ("without", "with"):
+                k += 1
+                if not ctx.mine(k):
+                    continue
                 acc = [0.0] * len(counts)
                 for seed in range(seeds):
                     m = make_csr([counts])
@@ -514,9 +518,11 @@ def run(ctx):
     # exhaustive subsets
     vectors = SMALL_VECTORS if ctx.quick() else SMALL_VECTORS + [
         [5, 4], [1, 1, 1, 1, 1, 1], [4, 0, 3, 2], [2, 2, 2, 2, 2], [6, 1, 3], [1, 0, 0, 0, 7],
-        [3, 3, 3, 3], [12], [1, 2, 3, 4], [5, 0, 5, 1], [2, 1, 2, 1, 2, 1, 2]]
-    for counts in vectors:
-        exhaustive(ctx, impls, counts)
+        [3, 3, 3, 3], [12], [1, 2, 3, 4], [5, 0, 5, 1], [2, 1, 2, 1, 2, 1, 2], [4, 4, 4], [1, 5, 0, 6], [7, 5],
+        [2, 2, 2, 2, 2, 2], [1, 1, 1, 1, 1, 1, 1, 1, 1, 1], [3, 1, 4, 1, 3], [6, 0, 0, 6], [11, 1]]
+    for k, counts in enumerate(vectors):
+        if ctx.mine(k):            # thorough runs are sharded over worker processes
+            exhaustive(ctx, impls, counts)
     ctx.exhaustive = False
     unbiased_means(ctx, impls, 1500 if ctx.quick() else 20000)
     with_replacement_kernel(ctx, impls, 300 if ctx.quick() else 5000)
